@@ -105,3 +105,29 @@ package openapi3
 //@   ensures [remaining-is-the-unmatched-rest] result.2 ==> (hasSuffix(old(input), result.1) || result.1 == "/")
 //@   ensures [no-match-carries-nothing] !result.2 ==> result.1 == "" && len(result.0) == 0
 //@   tag C09 C10
+
+// ---- C09: the order in which path templates are tried: templates with fewer variables first, so
+// a literal path is tried before any templated one. The number of variables of a template is the
+// number of its "{" (oracle); the scope is templates with balanced braces, where that is also the
+// number of "}" the code counts.
+//@ spec tvars(p string) int := strCount(p, "{")
+//@ spec balancedKeys(paths *Paths) bool := forall p string :: has(paths.m, p) ==> strCount(p, "{") == strCount(p, "}")
+//@ func (*Paths).InMatchingOrder
+//@   requires paths != nil
+//@   assuming balancedKeys(paths)
+//@   assuming forall p string :: has(paths.m, p) ==> len(p) < 9223372036854775807
+//@   modifies nothing
+//@   loop 0 invariant fresh(vars) && vars != nil && max >= 0 && max < 9223372036854775807
+//@   loop 0 invariant forall k int, j int :: has(vars, k) && 0 <= j && j < len(vars[k]) ==> tvars(vars[k][j]) == k && k <= max && has(paths.m, vars[k][j])
+//@   loop 0 invariant forall k int :: has(vars, k) ==> fresh(vars[k])
+//@   loop 0 invariant forall k1 int, k2 int :: has(vars, k1) && has(vars, k2) && k1 != k2 ==> ptr(vars[k1]) != ptr(vars[k2])
+//@   loop 1 invariant fresh(vars) && vars != nil && 0 <= c && c <= max + 1 && max < 9223372036854775807 && fresh(ordered)
+//@   loop 1 invariant forall k int, j int :: has(vars, k) && 0 <= j && j < len(vars[k]) ==> tvars(vars[k][j]) == k && has(paths.m, vars[k][j])
+//@   loop 1 invariant forall k int :: has(vars, k) ==> fresh(vars[k]) && ptr(vars[k]) != ptr(ordered)
+//@   loop 1 invariant forall k1 int, k2 int :: has(vars, k1) && has(vars, k2) && k1 != k2 ==> ptr(vars[k1]) != ptr(vars[k2])
+//@   loop 1 invariant forall i int :: 0 <= i && i < len(ordered) ==> tvars(ordered[i]) < c && has(paths.m, ordered[i])
+//@   loop 1 invariant forall i int, j int :: 0 <= i && i < j && j < len(ordered) ==> tvars(ordered[i]) <= tvars(ordered[j])
+//@   ensures [fewer-variables-first] forall i int, j int :: 0 <= i && i < j && j < len(result) ==> tvars(result[i]) <= tvars(result[j])
+//@   ensures [only-declared-paths] forall i int :: 0 <= i && i < len(result) ==> has(paths.m, result[i])
+//@   option safety-tags none
+//@   tag C09
